@@ -92,6 +92,28 @@ def parse_table():
             raise Refusal(f"cpp_functions.py line {node.lineno}: unexpected module-level statement {type(node).__name__}")
     if not (seen_add and seen_visit):
         raise Refusal("add_function_mapping / find_known_functions not found")
+    # the model reads the table as a constant built at import time: nothing else may write (or delete from) it
+    for node in tree.body:
+        if isinstance(node, (ast.FunctionDef, ast.ClassDef)) and node.name not in ("add_function_mapping", "find_known_functions"):
+            for sub in ast.walk(node):
+                if (isinstance(sub, ast.Name) and sub.id in ("functions_to_replace", "add_function_mapping")) or \
+                        (isinstance(sub, ast.Global) and "functions_to_replace" in sub.names):
+                    raise Refusal(f"cpp_functions.{node.name} (line {sub.lineno}) reads or changes the table of math functions: the model takes "
+                                  "the table as the constant built at import time")
+    for other in sorted((REPO / "func_adl_xAOD").rglob("*.py")):
+        if other == path:
+            continue
+        try:
+            otree = ast.parse(other.read_text())
+        except SyntaxError:
+            continue
+        for sub in ast.walk(otree):
+            nm = sub.id if isinstance(sub, ast.Name) else sub.attr if isinstance(sub, ast.Attribute) else \
+                [a.name for a in sub.names] if isinstance(sub, ast.ImportFrom) else None
+            names = nm if isinstance(nm, list) else [nm]
+            if "functions_to_replace" in names or "add_function_mapping" in names:
+                raise Refusal(f"{other.relative_to(REPO)} line {sub.lineno} uses the table of math functions (functions_to_replace / "
+                              "add_function_mapping): the model takes the table as the constant built at import time")
     return rows, bound
 
 
